@@ -32,7 +32,7 @@ def all_kinds_prog():
 
 def run(ctx):
     quick = ctx.quick
-    progs = [all_kinds_prog()] + M.programs(ctx, 8 if quick else 60, 3, 4 if quick else 5)
+    progs = [all_kinds_prog()] + M.programs(ctx, 8 if quick else 40, 3, 4)
     for p in progs:
         ctx.count(p, nontrivial=True)
     ctx.sample(K.prog_brief(progs[0]))
